@@ -366,6 +366,10 @@ def configs(tier):
     add("mtvrp", "mtvrp", num_loc=10, variant_preset="all", scale_demand=False)
     add("mtvrp", "mtvrp", num_loc=10, variant_preset=None, subsample=False)
     add("mtvrp", "mtvrp", num_loc=10, variant_preset="vrpb", backhaul_ratio=0.5, min_backhaul=2, max_backhaul=6)
+    # vehicle speed other than 1: travel times differ from distances in the window construction
+    add("mtvrp", "mtvrp", num_loc=10, variant_preset="vrptw", speed=0.8)
+    add("mtvrp", "mtvrp", num_loc=10, variant_preset="ovrpbltw", speed=2.0)
+    add("mtvrp", "mtvrp", num_loc=8, variant_preset="vrpltw", speed=0.5, max_time=10.0)
     # --- FJSP / JSSP ---
     add("fjsp", "fjsp", B=4, num_jobs=3, num_machines=3)
     add("fjsp", "fjsp", B=4, num_jobs=3, num_machines=3, min_ops_per_job=1, max_ops_per_job=3, same_mean_per_op=False)
